@@ -379,7 +379,9 @@ static void loadPlans() {
 }
 
 static Manifold convexShape(int which, std::string& name) {
-  switch (which % 6) {
+  switch (which % 8) {
+    case 6: { name = "cornertet"; const double a = urange(0.6, 1.6), b = urange(0.6, 1.6), c = urange(0.6, 1.6); return Manifold::Hull({vec3(0, 0, 0), vec3(a, 0, 0), vec3(0, b, 0), vec3(0, 0, c)}); }   // lopsided: the bounding-box centre is OUTSIDE the solid
+    case 7: { name = "wedge"; const double a = urange(1.5, 2.5), b = urange(0.2, 0.5); return Manifold::Hull({vec3(0, 0, 0), vec3(a, 0, 0), vec3(0, b, 0), vec3(0, 0, b), vec3(a, 0.3 * b, 0.3 * b), vec3(0.2 * a, b, b)}); }
     case 0: name = "box"; return Manifold::Cube(vec3(urange(0.4, 1.6), urange(0.4, 1.6), urange(0.4, 1.6)), true);
     case 1: name = "sphere"; return Manifold::Sphere(urange(0.4, 0.9), 4 * (1 + (int)R->below(2)));
     case 2: name = "tet"; return Manifold::Tetrahedron().Scale(vec3(urange(0.4, 0.9)));
@@ -477,8 +479,8 @@ static double now() { return std::chrono::duration<double>(std::chrono::steady_c
 
 static void minkCase(int idx, bool inset, bool wantAConvex, bool wantBConvex) {
   std::string na, nb;
-  Manifold A = wantAConvex ? convexShape((int)R->below(6), na) : nonConvexShape((int)R->below(7), na);
-  Manifold B = wantBConvex ? convexShape((int)R->below(6), nb) : nonConvexShape((int)R->below(7), nb);
+  Manifold A = wantAConvex ? convexShape((int)R->below(8), na) : nonConvexShape((int)R->below(7), na);
+  Manifold B = wantBConvex ? convexShape((int)R->below(8), nb) : nonConvexShape((int)R->below(7), nb);
   static const double scales[] = {0.2, 0.5, 1.0, 2.0, 4.0};
   double sa = scales[R->below(4)], sb = scales[R->below(5)];
   if (!inset && R->below(2)) sb = sa * urange(0.05, 0.3);   // B small against A's features: concavities of A survive in the sum
